@@ -54,6 +54,12 @@ def dec(e):
         return Opaque(e[1])
     if t == "d":
         return {dec(k): dec(v) for k, v in e[1]}
+    if t == "idd":
+        from xgi.utils import IDDict
+        d = IDDict()
+        for k, v in e[1]:
+            d[dec(k)] = dec(v)
+        return d
     raise ValueError(e)
 
 
